@@ -262,13 +262,20 @@ def run_cmd(cwd, args, plan=None, gc=None, streams="pipes", timeout=20, dump=Fal
     os.makedirs(tmpdir, exist_ok=True)
     env = {"PATH": "/usr/bin:/bin", "RUST_BACKTRACE": "0", "NO_COLOR": "1", "LD_PRELOAD": SHIM,
            "SIMWORLD_PLAN": plan_path, "SIMWORLD_LOG": log_path, "MSCRIPT_VERIF_STATS": stats_path,
-           "HOME": "/nonexistent", "LANG": "C.UTF-8", "TMPDIR": tmpdir, "SIMWORLD_ABS": worker_dir()}
+           "HOME": "/nonexistent", "LANG": "C.UTF-8", "TMPDIR": tmpdir, "SIMWORLD_ABS": worker_dir(),
+           # time belongs to the simulator.  By default the clock stands still (every reading is the same instant); a case may
+           # ask for the ticking clock (the n-th reading of a thread is n ms later) through extra_env
+           "SIMWORLD_CLOCK": "freeze"}
     if gc:
         env["MSCRIPT_VERIF_GC"] = gc
     if dump:
         env["MSCRIPT_VERIF_DUMP"] = dump_path
     if extra_env:
         env.update(extra_env)
+    if env.get("SIMWORLD_CLOCK") == "tick" and ("--verbose" in args or "--profile" in args or not ("-q" in args or "--quick" in args or args[0] in ("execute", "transpile", "clean"))):
+        # elapsed times reach the output of these commands (banner, profile report), and how often a process reads the
+        # clock is not quite repeatable (helper threads): they keep the standing clock
+        env["SIMWORLD_CLOCK"] = "freeze"
     argv = [binary or MSCRIPT] + list(args)
     pre = None
     if nofile or gone_cwd:
@@ -335,7 +342,7 @@ def run_cmd(cwd, args, plan=None, gc=None, streams="pipes", timeout=20, dump=Fal
                 res["dump"] = f.read()
             # an entry file spelled as an absolute path embeds the world directory, which differs between the legs of a case
             import re
-            res["dump"] = re.sub(re.escape(worker_dir()) + r"/[a-z]+(?=/)", "<world>", res["dump"])
+            res["dump"] = re.sub(re.escape(worker_dir()) + r"/[a-z0-9]+(?=/)", "<world>", res["dump"])
         except FileNotFoundError:
             res["dump"] = ""
     for p in (plan_path, log_path, stats_path, dump_path):
@@ -364,13 +371,33 @@ def strip_profile(out):
     return b.decode("utf-8", "surrogateescape") if is_str else b
 
 
-def worker_dir(name="w"):
-    """Per-worker scratch directory.  Its name has a fixed length and does not contain the pid: an absolute path can
-    leak into program output (the loader's error messages quote the resolved library path), and a path of varying
-    length would change write sizes in the event log."""
+CASE_DIR = [None]
+
+
+def process_dir(name="w"):
+    """Scratch directory of this worker process (things made once per worker, e.g. its copies of the probe libraries)."""
     ident = multiprocessing.current_process()._identity
-    d = os.path.join(SCRATCH, "%s%02d" % (name, ident[0] % 100 if ident else 0))
-    return d
+    return os.path.join(SCRATCH, "%s%02d" % (name, ident[0] % 100 if ident else 0))
+
+
+def worker_dir(name="w"):
+    """Scratch directory of the case being run.  Its name is a function of the case (property + case id), has a fixed length
+    and contains neither the pid nor the worker's number: an absolute path can leak into program output and into hash
+    maps keyed by paths (an entry file named absolutely), so the same case must see the same path whichever worker runs
+    it, in the batch, in the re-runs of the triage and in `./check replay`.  Outside a case: the worker's own directory."""
+    if CASE_DIR[0]:
+        return os.path.join(SCRATCH, CASE_DIR[0])
+    return process_dir(name)
+
+
+def run_case_in_dir(mod, case):
+    """mod.run_case(case) with the case's own scratch directory, removed afterwards."""
+    CASE_DIR[0] = "k" + hashlib.sha1(("%s/%s" % (case.get("prop"), case.get("id"))).encode()).hexdigest()[:5]
+    try:
+        return mod.run_case(case)
+    finally:
+        shutil.rmtree(os.path.join(SCRATCH, CASE_DIR[0]), ignore_errors=True)
+        CASE_DIR[0] = None
 
 
 def fresh_world(files=None, sub="world"):
@@ -504,7 +531,9 @@ def digest_of(procs):
     global _THREAD_ID
     if _THREAD_ID is None:
         _THREAD_ID = (re.compile(rb"thread '([^']*)' \(\d+\)"), re.compile(rb"0x[0-9a-fA-F]{6,}"),
-                      re.compile(re.escape(SCRATCH.encode()) + rb"/w\d\d"))
+                      re.compile(re.escape(SCRATCH.encode()) + rb"/(?:w\d\d|k[0-9a-f]{5})"),
+                      # the profile report quotes the process's memory usage as the OS accounts it: not owned by the simulator
+                      re.compile(rb"(Physical|Virtual) memory: \d+ bytes"))
     h = hashlib.sha256()
     for p in procs:
         h.update(repr(p["rc"]).encode())
@@ -512,15 +541,17 @@ def digest_of(procs):
             t = _THREAD_ID[0].sub(rb"thread '\1' (N)", stream)
             t = _THREAD_ID[1].sub(b"0xADDR", t)
             t = _THREAD_ID[2].sub(b"<scratch>", t)
+            t = _THREAD_ID[3].sub(rb"\1 memory: N bytes", t)
             h.update(t)
             h.update(b"|")
-        panicked = b"panicked at" in p["err"] or b"panicked at" in p["out"]
+        panicked = b"panicked at" in p["err"] or b"panicked at" in p["out"] or "--profile" in p["args"]
         for e in p["events"]:
             if panicked and e["path"] in ("<stderr>", "<stdout>") and e["call"] == "write":
                 # a panic message carries the OS thread id, whose digit count changes the write sizes
                 h.update(("%s,%s,%d,%s;" % (e["call"], e["path"], e["errno"], e["rule"] != "-")).encode())
                 continue
-            h.update(("%d,%s,%s,%d,%d,%d,%s;" % (e["seq"], e["call"], e["path"], e["req"], e["res"], e["errno"], e["rule"])).encode())
+            path = _THREAD_ID[2].sub(b"<scratch>", e["path"].encode("utf-8", "surrogateescape")).decode("utf-8", "surrogateescape")
+            h.update(("%d,%s,%s,%d,%d,%d,%s;" % (e["seq"], e["call"], path, e["req"], e["res"], e["errno"], e["rule"])).encode("utf-8", "surrogateescape"))
     return h.hexdigest()[:20]
 
 
@@ -542,7 +573,7 @@ def _run_one(arg):
     modname, case = arg
     mod = sys.modules.get(modname) or __import__(modname)
     try:
-        res = mod.run_case(case)
+        res = run_case_in_dir(mod, case)
     except HarnessError as e:
         res = {"ok": False, "harness_error": str(e)}
     except Exception as e:  # a crash of the driver is a harness error, never a verdict
@@ -703,7 +734,7 @@ def minimise(mod, case, res, budget_s=120):
             if time.time() - t0 > budget_s:
                 break
             try:
-                r = mod.run_case(cand)
+                r = run_case_in_dir(mod, cand)
             except Exception:
                 continue
             if not r.get("ok") and r.get("class") == cls and "harness_error" not in r:
